@@ -13,6 +13,11 @@ func init() {
 	Profiles["C03"] = []Profile{{Name: "hostile-paths", Weight: 1, Gen: GenC03}}
 	Profiles["C04"] = []Profile{{Name: "conditional", Weight: 1, Gen: GenC04}}
 	Profiles["C05"] = []Profile{{Name: "api-clients", Weight: 1, Gen: GenC05}}
+	Profiles["C18"] = []Profile{
+		{Name: "concurrent", Weight: 1, Gen: GenC18Conc},
+		{Name: "upload", Weight: 1, Gen: GenC18Upload},
+	}
+	Profiles["C18-calibration"] = []Profile{{Name: "calibration", Weight: 1, Gen: GenC18Calibrate}}
 	Profiles["C17"] = []Profile{
 		{Name: "history", Weight: 2, Gen: GenC01},
 		{Name: "disk-error-kinds", Weight: 4, Gen: GenC17Disk},
